@@ -38,6 +38,28 @@ def rad_case(draw, kind):
     return dict(solver=cat.RAD + kind + '_Solver', params=p, kind=kind, dt=dt, t0=t0, fr=fr)
 
 
+def sane_profile(o, s, kind):
+    """the spliced profile must be a finite, ordered table describing a compression (the public call interpolates in it)"""
+    xs = np.asarray(s.x, float)
+    rho = np.asarray(s.Density, float)
+    if not (np.all(np.isfinite(xs)) and np.all(np.isfinite(rho))):
+        o.fail('profile table is finite, ordered and compressive', kind, reason='non-finite positions or densities')
+        return False
+    d = np.diff(xs)
+    ext = xs.max() - xs.min()
+    ndec = int(np.sum(d < -1e-7 * ext))
+    if ndec > 0 or int(np.sum(d < 0)) > 5:
+        o.fail('profile table is finite, ordered and compressive', kind, reason='positions not sorted', n_decreasing_steps=int(np.sum(d < 0)),
+               largest_backward_step_over_extent=float(-d.min() / ext))
+        return False
+    if not rho[-1] > rho[0] * (1 + 1e-6):
+        o.fail('profile table is finite, ordered and compressive', kind, reason='downstream density does not exceed upstream density',
+               ratio=float(rho[-1] / rho[0]))
+        return False
+    o.checks += 1
+    return True
+
+
 def check_translation(case):
     o = Out()
     P = case['params']
@@ -49,11 +71,8 @@ def check_translation(case):
     gam, Cv, Tref = P.get('gamma', c.gamma), P.get('Cv', c.Cv), P.get('Tref', c.Tref)
     cs = math.sqrt(gam * (gam - 1) * Cv * Tref)
     xs = np.asarray(s.x, float)
-    mono = bool(np.all(np.diff(xs) >= 0))
-    o.true('profile position table is monotone (the public call interpolates in it)', mono, regime=kind,
-           n_decreasing_steps=int(np.sum(np.diff(xs) < 0)))
-    if not mono:
-        return o            # numpy.interp on an unsorted table is undefined: nothing further can be compared
+    if not sane_profile(o, s, kind):
+        return o            # numpy.interp on an unsorted / non-finite table is undefined: nothing further can be compared
     lo, hi = -xs[-1], -xs[0]
     t0, dt = case['t0'], case['dt']
     shift0 = P['M0'] * cs * t0
@@ -92,6 +111,8 @@ def check_fluxes(case):
     rho, u, p = (np.asarray(getattr(s, k), float) for k in ('Density', 'Speed', 'Pressure'))
     Tm = np.asarray(s.Tm, float)
     o.label(kind, 'M0=%g' % P['M0'], P.get('problem', ''))
+    if kind != 'ie' and not sane_profile(o, s, kind):
+        return o
     o.true('profile attributes finite', bool(np.all(np.isfinite(rho)) and np.all(np.isfinite(u)) and np.all(np.isfinite(p)) and np.all(np.isfinite(Tm))))
     rho0 = P.get('rho0', c.rho0)
     o.close('upstream state: rho0, M0 c_s, Tref', [rho[0], u[0], Tm[0]], [rho0, P['M0'] * cs, Tref], 1e-6, regime=kind)
@@ -127,7 +148,6 @@ def check_fluxes(case):
     o.close('far-field equilibrium states: equal total energy flux u (rho u^2/2 + gamma p/(gamma-1) + 4/3 a T^4)', e_eq[-1], e_eq[0], 1e-5, regime=kind)
     m_eq = rho * u * u + p + Eeq / 3
     o.close('far-field equilibrium states: equal total momentum flux', m_eq[-1], m_eq[0], 1e-5, regime=kind)
-    o.true('compressive: downstream density exceeds upstream density', rho[-1] > rho[0], regime=kind)
     o.nontrivial = P['M0'] != 1.2 or any(k in P for k in ('gamma', 'Cv', 'Tref', 'rho0'))
     return o
 
